@@ -388,8 +388,8 @@ func runC12(rep *Report, r *Rng, tier string) {
 		pool := poolOf(d.Materialize())
 		c := &SqlCase{Data: d, DSNOpts: Pick(r, dsnOptionSets)}
 		for k := 0; k < 15; k++ {
-			q := genSqlQuery(r, pool, false)
-			if r.Chance(1, 6) { // grouped query that matches nothing
+			q := genSqlQuery(r, pool, r.Chance(1, 3)) // a third of the queries with bound arguments (prepared or direct)
+			if len(q.ArgSets) == 0 && r.Chance(1, 6) { // grouped query that matches nothing
 				q.Tree.T = &PT{Op: "A", Kids: []*PT{q.Tree.T, {Op: "E", C: hx(Pick(r, append(pool.cols, "a"))), V: hx("no-such-value")}}}
 				if len(pool.cols) > 0 && len(q.Tree.GB) == 0 {
 					q.Tree.GB = []string{hx(pool.cols[0])}
@@ -721,6 +721,73 @@ func runC17(rep *Report, r *Rng, tier string) {
 		if runDrvCase(env, c, rep) {
 			rep.Note("run aborted after a hang (a blocked goroutine cannot be recovered in-process)")
 			return
+		}
+		if rep.NViol() >= 6 {
+			rep.Note("stopped early after %d violations", rep.NViol())
+			return
+		}
+	}
+	// churn: goroutines open, query and close handles on the SAME data source concurrently, so that last closes
+	// overlap with opens
+	rounds := 40
+	if tier == "thorough" {
+		rounds = 400
+	}
+	for round := 0; round < rounds && rep.NViol() < 6; round++ {
+		dsn := "file:" + env.files[round%2] + drvOpts[round%len(drvOpts)]
+		res := watchdog(60*time.Second, func() string {
+			var wg sync.WaitGroup
+			out := make([]string, 8)
+			for g := 0; g < 8; g++ {
+				wg.Add(1)
+				go func(g int) {
+					defer wg.Done()
+					defer func() {
+						if p := recover(); p != nil {
+							out[g] = fmt.Sprintf("panic: %v", p)
+						}
+					}()
+					for k := 0; k < 6; k++ {
+						db, err := sql.Open("updog", dsn)
+						if err != nil {
+							out[g] = "err-open: " + err.Error()
+							return
+						}
+						s := rowsString(db, env.probe)
+						db.Close()
+						if s != env.expected[round%2] {
+							out[g] = s
+							return
+						}
+					}
+				}(g)
+			}
+			wg.Wait()
+			for _, s := range out {
+				if s != "" {
+					return s
+				}
+			}
+			return "ok"
+		})
+		rep.Eval(fmt.Sprintf("churn-%d", round), true)
+		rep.Count("churn-rounds")
+		if res != "ok" {
+			sig := "C17:wrong-rows"
+			if strings.HasPrefix(res, "panic") {
+				sig = "C17:panic"
+			} else if res == "hang" {
+				sig = "C17:hang"
+			} else if strings.HasPrefix(res, "err") {
+				sig = "C17:query-error"
+			}
+			rep.Violate(Violation{Kind: "schedule", Signature: sig, What: "8 goroutines opening, querying and closing handles on one data source concurrently (" + dsn + ")", Expected: env.expected[round%2], Actual: trunc(res, 400), Case: map[string]any{"churn": dsn}})
+			if res == "hang" {
+				return
+			}
+		}
+		if s := releasedProbe(env.files[round%2]); s != "released" {
+			rep.Violate(Violation{Kind: "schedule", Signature: "C17:file-not-released", What: "file still locked after every handle of a concurrent open/query/close round was closed", Expected: "released", Actual: s, Case: map[string]any{"churn": dsn}})
 		}
 	}
 	rep.OracleCalls = o.n
